@@ -1,16 +1,22 @@
 #!/bin/sh
 # usage: tools/regress_seeded.sh [name-prefix]  — re-applies every seeded change to /repo in turn, runs the quick check of the property it
-# breaks, and reports whether it is (still) detected; /repo is restored after each one
+# breaks, and reports whether it is (still) detected; /repo is restored after each one and on every exit path that can be trapped
+MARK=/verif/.mutation-in-progress
 cd /repo || exit 2
-if ! git diff --quiet; then echo "repo dirty"; exit 2; fi
+if [ -e "$MARK" ]; then echo "unfinished mutation run: $(cat $MARK) — restore /repo (git -C /repo checkout -- .) and remove $MARK"; exit 2; fi
+if ! git diff --quiet || ! git diff --cached --quiet; then echo "repo dirty"; exit 2; fi
+restore() { git -C /repo checkout -- . ; rm -f "$MARK"; }
+trap 'restore; exit 130' INT TERM HUP
+trap 'restore' EXIT
 for d in /verif/seeded/${1:-}*/; do
   n=$(basename "$d")
   p=$(python3 -c "import json;print(json.load(open('$d/meta.json'))['breaks_property'])")
-  if ! git -C /repo apply "$d/patch.diff" 2>/dev/null; then echo "$n: PATCH DOES NOT APPLY"; continue; fi
+  echo "$d/patch.diff" > "$MARK"
+  if ! git -C /repo apply "$d/patch.diff" 2>/dev/null; then echo "$n: PATCH DOES NOT APPLY"; rm -f "$MARK"; continue; fi
   cp "/verif/evidence/$p.json" "/tmp/evidence-$p.json.keep" 2>/dev/null
   out=$(cd /verif && timeout 1500 ./check "$p" quick 2>&1 | grep -E "^(VIOLATION|OK)" | head -1)
   [ -f "/tmp/evidence-$p.json.keep" ] && mv "/tmp/evidence-$p.json.keep" "/verif/evidence/$p.json"
-  git -C /repo checkout -- .
+  restore
   echo "$n [$p]: $out"
 done
 git -C /repo status --short | head -3
